@@ -796,6 +796,61 @@ func analyseCron(dir string) (parserWrites, loggerWrites []string, valueRecv boo
 	return
 }
 
+// ---------- crypto/aeskw: the package-level byte slice defaultIV ----------
+
+// analyseDefaultIV lists every use of defaultIV that is not a pure read (source of copy, argument
+// of subtle.ConstantTimeCompare / bytes.Equal): assignments to it or to its elements, address-of,
+// re-slicing, append, destination of copy, any other call receiving it.
+func analyseDefaultIV(dir string) (writes []string) {
+	ents, _ := os.ReadDir(dir)
+	declared := 0
+	for _, e := range ents {
+		if !strings.HasSuffix(e.Name(), ".go") || strings.HasSuffix(e.Name(), "_test.go") {
+			continue
+		}
+		f := parseFile(filepath.Join(dir, e.Name()))
+		site := func(pos token.Pos, what string) string {
+			p := fset.Position(pos)
+			return fmt.Sprintf("%s:%d %s", filepath.Base(p.Filename), p.Line, what)
+		}
+		okUse := map[*ast.Ident]bool{}
+		ast.Inspect(f, func(m ast.Node) bool {
+			switch x := m.(type) {
+			case *ast.ValueSpec:
+				for _, n := range x.Names {
+					if n.Name == "defaultIV" {
+						declared++
+						okUse[n] = true
+					}
+				}
+			case *ast.CallExpr:
+				name := exprStr(x.Fun)
+				for i, a := range x.Args {
+					id, ok := a.(*ast.Ident)
+					if !ok || id.Name != "defaultIV" {
+						continue
+					}
+					if (name == "copy" && i == 1) || name == "subtle.ConstantTimeCompare" || name == "bytes.Equal" {
+						okUse[id] = true
+					}
+				}
+			}
+			return true
+		})
+		ast.Inspect(f, func(m ast.Node) bool {
+			if id, ok := m.(*ast.Ident); ok && id.Name == "defaultIV" && !okUse[id] {
+				writes = append(writes, site(id.Pos(), "use other than reading it as a copy source / comparison operand"))
+			}
+			return true
+		})
+	}
+	if declared != 1 {
+		fmt.Fprintf(os.Stderr, "factgen_c08: aeskw: defaultIV declared %d times\n", declared)
+		os.Exit(1)
+	}
+	return
+}
+
 // ---------- byteslicepool ----------
 
 func analyseBsp(path string) string {
@@ -929,10 +984,11 @@ func main() {
 	lockFacts := analyseLogger(filepath.Join(*repo, "logger"))
 	pw, lw, valueRecv, pmethods := analyseCron(filepath.Join(*repo, "cron"))
 	zeroTo := analyseBsp(filepath.Join(*repo, "byteslicepool/byteslicepool.go"))
+	ivWrites := analyseDefaultIV(filepath.Join(*repo, "crypto/aeskw"))
 
 	var b strings.Builder
 	b.WriteString("import KitModel.PoolOwnership\nimport KitModel.Containers\n")
-	b.WriteString("/-! GENERATED by harness/cmd/factgen_c08 from schemes/enc/v1/scheme.go, logger/*.go, cron/*.go,\nbyteslicepool/byteslicepool.go — do not edit; bin/check rewrites it on every run. -/\n")
+	b.WriteString("/-! GENERATED by harness/cmd/factgen_c08 from schemes/enc/v1/scheme.go, logger/*.go, cron/*.go,\ncrypto/aeskw/*.go, byteslicepool/byteslicepool.go — do not edit; bin/check rewrites it on every run. -/\n")
 	b.WriteString("namespace Kit.Generated.C08\nopen Kit.PoolOwn Kit.Containers\n\n")
 	b.WriteString("/-- a function of scheme.go that takes a buffer from `BufPool` -/\nstructure PoolUse where\n  func : String\n  bufVar : String\n  putDeferred : Bool        -- `defer … BufPool.Put(buf)` directly after the Get: on every path, after the last use\n  putExplicit : Nat         -- other Put calls\n  results : List RetKind    -- per result: (sub-)slice of the buffer / copy or unrelated value / always nil\n  retains : List String     -- a slice of the buffer stored where it outlives the call\n  passedTo : List String    -- callees receiving a slice of the buffer (by contract they do not retain it)\n  deriving Repr, DecidableEq\n\n")
 	b.WriteString("def poolUses : List PoolUse := [\n")
@@ -973,6 +1029,7 @@ func main() {
 	fmt.Fprintf(&b, "/-- assignments to / through / address-of `cron.standardParser` outside its declaration -/\ndef standardParserWrites : List String := %s\n\n", leanStrs(pw))
 	fmt.Fprintf(&b, "/-- assignments to / address-of `cron.DefaultLogger` outside its declaration -/\ndef defaultLoggerWrites : List String := %s\n\n", leanStrs(lw))
 	fmt.Fprintf(&b, "/-- every method of `cron.Parser` has a value receiver (it works on a copy) -/\ndef parserValueReceivers : Bool := %v\ndef parserMethods : List String := %s\n\n", valueRecv, leanStrs(pmethods))
+	fmt.Fprintf(&b, "/-- uses of the package-level byte slice `aeskw.defaultIV` other than reading it (copy source, comparison operand) -/\ndef aeskwDefaultIVWrites : List String := %s\n\n", leanStrs(ivWrites))
 	fmt.Fprintf(&b, "/-- how far `ByteSlicePool.Get` clears a recycled slice -/\ndef bspZeroTo : ZeroTo := .%s\n\n", zeroTo)
 	b.WriteString("end Kit.Generated.C08\n")
 	if *out == "" {
